@@ -27,6 +27,18 @@ type Recorder struct {
 	mu     sync.Mutex
 	Events []Event
 	Over   bool // some lambda saw an input larger than SizeBudget: the case is dropped (class "budget")
+	// Unbounded: some lambda was handed a value that contains itself or unfolds beyond MaxNodes (value.go): no
+	// merge of the bounded values of a case is like that; the run is reported as failed with UnboundedMsg
+	Unbounded bool
+}
+
+// UnboundedMsg is the error message of a run in which a lambda received an unbounded value.
+const UnboundedMsg = "verif-unbounded-value: a node was handed a value that contains itself (or is nested deeper than the harness can walk): not the merge of the values it was sent"
+
+func (r *Recorder) IsUnbounded() bool {
+	r.mu.Lock()
+	defer r.mu.Unlock()
+	return r.Unbounded
 }
 
 // SizeBudget bounds the size of the values a case may build (cyclic graphs with fan-in double them
@@ -149,6 +161,12 @@ func (b *builder) newLambda(path []uint64) *compose.Lambda {
 		}
 	}
 	body := Body(func(ctx context.Context, in M) (M, error) {
+		if Unbounded(in) {
+			b.rec.mu.Lock()
+			b.rec.Unbounded = true
+			b.rec.mu.Unlock()
+			return nil, errors.New(UnboundedMsg)
+		}
 		if SizeOfGo(in) > SizeBudget {
 			b.rec.mu.Lock()
 			b.rec.Over = true
@@ -253,6 +271,9 @@ func streamSize(sr *schema.StreamReader[M]) (uint64, error) {
 		if err != nil {
 			return 0, err
 		}
+		if Unbounded(c) {
+			return 0, errors.New(UnboundedMsg)
+		}
 		chunks = append(chunks, c)
 	}
 	switch len(chunks) {
@@ -347,6 +368,10 @@ func (b *builder) subCompileOpts(idx int, p []uint64) []compose.GraphCompileOpti
 	}
 	return opts
 }
+
+// BranchKey is the key under which a node is added to a ChainBranch and which the branch condition returns: it
+// differs from the node's graph key (KeyStr), so that code which confuses the two name spaces shows.
+func BranchKey(k uint64) string { return "b" + KeyStr(k) }
 
 func (b *builder) chainKeyOpt(k uint64) []compose.GraphAddNodeOpt {
 	if b.o.AutoChainKeys {
@@ -579,7 +604,7 @@ func (b *builder) chain(g *Graph, p []uint64) (*compose.Chain[M, M], error) {
 						if err != nil {
 							return "", err
 						}
-						return KeyStr(table[sz%uint64(len(table))][0]), nil
+						return BranchKey(table[sz%uint64(len(table))][0]), nil
 					})
 				} else if b.o.StreamConds {
 					cb = compose.NewStreamChainMultiBranch(func(ctx context.Context, in *schema.StreamReader[M]) (map[string]bool, error) {
@@ -590,21 +615,21 @@ func (b *builder) chain(g *Graph, p []uint64) (*compose.Chain[M, M], error) {
 						out := map[string]bool{}
 						if len(table) > 0 {
 							for _, k := range table[sz%uint64(len(table))] {
-								out[KeyStr(k)] = true
+								out[BranchKey(k)] = true
 							}
 						}
 						return out, nil
 					})
 				} else if st.Single {
 					cb = compose.NewChainBranch(func(ctx context.Context, in M) (string, error) {
-						return KeyStr(table[SizeOfGo(in)%uint64(len(table))][0]), nil
+						return BranchKey(table[SizeOfGo(in)%uint64(len(table))][0]), nil
 					})
 				} else {
 					cb = compose.NewChainMultiBranch(func(ctx context.Context, in M) (map[string]bool, error) {
 						out := map[string]bool{}
 						if len(table) > 0 {
 							for _, k := range table[SizeOfGo(in)%uint64(len(table))] {
-								out[KeyStr(k)] = true
+								out[BranchKey(k)] = true
 							}
 						}
 						return out, nil
@@ -615,7 +640,7 @@ func (b *builder) chain(g *Graph, p []uint64) (*compose.Chain[M, M], error) {
 					np := pathOf(p, sn.Key)
 					n := &Node{Key: sn.Key, Kind: sn.Kind, Sub: sn.Sub, OutKey: sn.OutKey}
 					opts := b.nodeOpts(np, n, b.chainKeyOpt(sn.Key)...)
-					bk := KeyStr(sn.Key)
+					bk := BranchKey(sn.Key)
 					switch sn.Kind {
 					case "lambda":
 						cb.AddLambda(bk, b.lambda(np), opts...)
@@ -794,6 +819,9 @@ func Invoke(ctx context.Context, bt *Built, input *Val, o RunOpts) *Obs {
 	over := bt.Rec.Over
 	bt.Rec.mu.Unlock()
 	switch {
+	case bt.Rec.IsUnbounded():
+		obs.Class = "fail"
+		obs.ErrMsg = UnboundedMsg
 	case over:
 		obs.Class = "budget"
 	case res.p != nil:
